@@ -640,3 +640,29 @@ def c14_two_process_reinit(seed=1):
     op(2, f"nop expect-login 0"); op(2, f"login @{s2} 0 {so}"); op(2, f"logout @{s2}")
     op(2, "fini")
     return "\n".join(lines) + "\n"
+
+
+# ---------------------------------------------------------------------------------------------------------
+# C16 / C17: EVERY truncation of an object file with a mechanism set and an attribute map, opened with locking enabled
+# ---------------------------------------------------------------------------------------------------------
+def c17_truncation_matrix(lo, hi, flavour="initix"):
+    """A token whose only object is a key with CKA_WRAP_TEMPLATE (attribute map), CKA_UNWRAP_TEMPLATE and CKA_ALLOWED_MECHANISMS (mechanism set); for every n in [lo, hi)
+    the object file is cut to n bytes (what a process death inside a rewrite leaves: a prefix) and the directory is opened by C_Initialize with the application's mutex
+    callbacks, searched and read.  The loader's error branches for collection-valued attributes run under the object's mutex: the callbacks count a second lock of a
+    locked mutex (a self-deadlock with real mutexes) and every handle they never issued (`nop mxstat`)."""
+    rng = random.Random(7)
+    h = OpsGen(rng); h.prologue(1); t = h.toks[0]
+    k = h.open(t, True); h.login(k, t, 'user')
+    mechs = "".join(ul(m) for m in (0x1081, 0x1082, 0x1085, 0x1086, 0x1087, 0x2109, 0x210a, 0x108a))
+    h.op(f"create @{k} 0={ul(4)} 100={ul(0x1f)} 1=01 2=01 3={hx('the-key')} 102={'5a' * 24} 11={'0f' * 32} 104=01 105=01 106=01 107=01 162=01 103=00 "
+         f"40000211={{0={ul(4)};162=01;3={hx('inner')}}} 40000212={{104=01;105=01}} 40000600={mechs}"); h.minted += 1
+    h.op("fini"); h.op("nop mutated"); h.op("snapshot a")
+    for n in range(lo, hi):
+        h.op("restore a"); h.op(f"fsmut truncate T0/O0 {n}")
+        h.op(flavour); h.op("slots")
+        s = h.op(f"open t:{hx(t.label)} 6"); h.op(f"login @{s} 1 {hx(t.user)}")
+        h.op(f"findinit @{s}"); f = h.op(f"find @{s} 10"); h.op(f"findfinal @{s}")
+        h.op(f"getattr @{s} @{f}.0 0:8 100:8 3:64 102:64 40000211:n 40000600:64 162:1")
+        h.op(f"create @{s} 0={ul(0)} 1=01 2=01 3={hx('after')} 11=aabb")
+        h.op("fini"); h.op("nop mxstat")
+    return h.text()
